@@ -1,6 +1,7 @@
 package main
 
 import (
+	"encoding/json"
 	"fmt"
 	"go/types"
 	"sort"
@@ -21,6 +22,19 @@ type TraceEntry struct {
 	Alts  []string `json:"-"`
 	Len   int      `json:"-"`
 	Val   any      `json:"val"`
+}
+
+func (t *TraceEntry) UnmarshalJSON(data []byte) error {
+	var raw struct {
+		Kind string          `json:"kind"`
+		Name string          `json:"name"`
+		Val  json.RawMessage `json:"val"`
+	}
+	if err := json.Unmarshal(data, &raw); err != nil {
+		return err
+	}
+	t.Kind, t.Name, t.Val = raw.Kind, raw.Name, raw.Val
+	return nil
 }
 
 type Failure struct {
